@@ -151,27 +151,35 @@ def check_split(prog: Program, res: Result) -> None:
             res.inconclusive(f"{fi.qualname}: find_local_peaks result not unpacked into 4 names")
             continue
         pts, vals, sinds, cinds = [norm(e) for e in tg]
-        # follow re-bindings of the points (peaks = peaks * stride)
-        loops = [n for n in walk_function(fi.node) if isinstance(n, ast.For) and isinstance(n.iter, ast.Call) and norm(n.iter.func) == "range"
-                 and sinds in {x for s in n.body for x in astq.names_in(s)}]
-        res.ob(R, len(loops) == 1, fi.qualname, "one per-sample loop", f"{len(loops)} per-sample loops over the flattened peaks", fi.where)
-        if len(loops) != 1:
+        # the per-sample mask: ONE comparison `sample index == v`, v ranging over range(batch) (loop or comprehension);
+        # every sibling array is indexed with that very mask (identity, not name)
+        cmps = [c for c in walk_function(fi.node) if isinstance(c, ast.Compare) and len(c.ops) == 1 and sinds in (norm(c.left), norm(c.comparators[0]))]
+        # textual copies of the same comparison under the same iteration are one mask
+        classes = {}
+        for c in cmps:
+            v_ = c.comparators[0] if norm(c.left) == sinds else c.left
+            it_ = astq.iteration_of(c, norm(v_)) if isinstance(v_, ast.Name) else None
+            classes.setdefault((norm(c), id(it_)), []).append(c)
+        res.ob(R, len(classes) == 1, fi.qualname, "one per-sample mask", f"{len(classes)} different comparisons of `{sinds}` (per-sample loops over the flattened peaks)", fi.where)
+        if len(classes) != 1:
             continue
-        lp = loops[0]
-        res.ob(R, norm(lp.iter) == f"range({batch_expr})", fi.qualname, f"loop over range({batch_expr})", f"the per-sample loop iterates `{norm(lp.iter)}`", f"{fi.module.relpath}:{lp.lineno}")
-        sites = _mask_sites(fi.node, sinds, lp)
+        same = next(iter(classes.values()))
+        M = same[0]
+        var = M.comparators[0] if norm(M.left) == sinds else M.left
+        it = astq.iteration_of(M, norm(var)) if isinstance(var, ast.Name) else None
+        okm = isinstance(M.ops[0], ast.Eq) and it is not None and astq.xnorm(fi.node, it) == f"range({batch_expr})"
+        res.ob(R, okm, fi.qualname, f"mask compares {sinds} with b for b in range({batch_expr})",
+               f"the per-sample mask is `{short(M, 40)}` with `{short(var, 10)}` ranging over `{short(it, 30) if it is not None else '?'}`", f"{fi.module.relpath}:{M.lineno}")
+        res.ob(R, okm, fi.qualname, f"loop over range({batch_expr})", "the per-sample iteration does not cover range(batch)", f"{fi.module.relpath}:{M.lineno}")
+        sites: Dict[str, ast.AST] = {}
+        for n_ in walk_function(fi.node):
+            if isinstance(n_, ast.Subscript) and isinstance(n_.value, ast.Name) and any(astq.mask_of(fi.node, n_.slice, at=n_) is c_ for c_ in same):
+                sites.setdefault(n_.value.id, n_)
         siblings = [pts, vals] + ([cinds] if cinds != "_" else [])
-        masks = set()
         for arr in siblings:
-            ok = arr in sites
-            res.ob(R, ok, fi.qualname, f"{arr} split by the sample mask", f"`{arr}` is not selected with the per-sample mask on `{sinds}` inside the loop: "
-                   "peaks of other frames of the batch end up in this frame's output", f"{fi.module.relpath}:{lp.lineno}", sample={"array": arr, "mask": sites.get(arr)})
-            if ok:
-                masks.add(sites[arr])
-        res.ob(R, len(masks) == 1, fi.qualname, "one mask for all sibling arrays", f"sibling arrays are split with different masks: {sorted(masks)}", f"{fi.module.relpath}:{lp.lineno}")
-        for m in masks:
-            ok = f"{sinds} == {norm(lp.target)}" in m or f"{norm(lp.target)} == {sinds}" in m
-            res.ob(R, ok, fi.qualname, f"mask compares {sinds} with the loop variable", f"the per-sample mask is `{m}`", f"{fi.module.relpath}:{lp.lineno}")
+            res.ob(R, arr in sites, fi.qualname, f"{arr} split by the sample mask", f"`{arr}` is not selected with the per-sample mask on `{sinds}`: "
+                   "peaks of other frames of the batch end up in this frame's output", f"{fi.module.relpath}:{M.lineno}", sample={"array": arr})
+        res.ob(R, all(a in sites for a in siblings), fi.qualname, "one mask for all sibling arrays", "sibling arrays are split with different masks", f"{fi.module.relpath}:{M.lineno}")
     res.floor(R, 12)
 
 
